@@ -59,6 +59,9 @@ def hazard(T, S):
 DATA = ["mixed", "neg", "pos", "negline", "const", "zero", "pow2", "wide"]
 
 
+CLASS_BOUND = {"mixed": 4, "neg": 4, "pos": 4, "negline": 4, "const": 4, "zero": 1, "pow2": 4, "wide": 9}
+
+
 def fill(dr, cls, n1, n2):
     """n1*n2 values (logical row-major) of a data class"""
     n = n1 * n2
@@ -120,7 +123,9 @@ class Dir(Gen):
                 vals = fill(self.dr, cls, v.shape[0], v.shape[1])
                 ops.append(f"mat {v.kind} {v.shape[0]} {v.shape[1]} " + " ".join(map(str, vals)))
             v.values = vals
-            v.bound, v.dexp = max([abs(x) for x in vals] + [1]), 0
+            # the bound of the data CLASS, not of the drawn values: which statements pass the magnitude check (the
+            # structure of the program, hence the cached object files) must not depend on the seed
+            v.bound, v.dexp = max([abs(x) for x in vals] + [CLASS_BOUND.get(cls, 4)]), 0
         return [o.strip() for o in ops]
 
     def skip(self, why):
@@ -468,36 +473,45 @@ class Dir(Gen):
         return cases
 
     def fam_alias_products(self):
-        """block-wise right-hand sides that read the target (the temporary is mandatory)"""
+        """block-wise right-hand sides that read the target (the temporary is mandatory).  Every expression node is
+        built when its statement is emitted (magnitudes of the operands are the current ones) and the store is
+        re-initialised every three statements, so that the values stay inside the exact range of double"""
         cases = []
         for kind in ("A", "B"):
-            self.setup([4, 4], [(4, 4), (4, 4)] if kind == "A" else [(4, 4)], [(4, 4), (4, 4)] if kind == "B" else [(4, 4)])
-            init = self.init_ops({"*": "mixed"})
-            stmts = []
-            M, M1 = self.p_var(self.V(kind, 0)), self.p_var(self.V(kind, 1))
-            O = self.p_var(self.V("B" if kind == "A" else "A", 0))
-            v = self.p_var(self.V("v", 0))
+            other = "B" if kind == "A" else "A"
+            lay = lambda: self.setup([4, 4], [(4, 4), (4, 4)] if kind == "A" else [(4, 4)],
+                                     [(4, 4), (4, 4)] if kind == "B" else [(4, 4)])
+            P = lambda kd, k: self.p_var(self.V(kd, k))
+            M, M1, O, v = (lambda: P(kind, 0)), (lambda: P(kind, 1)), (lambda: P(other, 0)), (lambda: P("v", 0))
             todo = [
-                ("set", v, lambda: self.mk_mv(M.e, v.e)),
-                ("plus", v, lambda: self.mk_vm(v.e, M.e)),
-                ("set", M, lambda: self.mk_mm(M.e, M1.e)),
-                ("set", M, lambda: self.mk_mm(M1.e, self.mk_trans(M.e))),
-                ("minus", M, lambda: self.mk_mm(O.e, M.e)),
-                ("set", self.p_row(M, 1), lambda: self.mk_mv(M.e, self.p_col(M, 2).e)),
-                ("set", self.p_col(M, 0), lambda: self.mk_vm(self.p_row(M, 3).e, M.e)),
-                ("plus", self.p_diag(M), lambda: self.mk_fold("max", False, M.e)),
-                ("set", self.p_row(M, 0), lambda: self.mk_fold("min", True, M.e)),
-                ("set", M, lambda: self.mk_outer(self.p_col(M, 1).e, self.p_row(M, 2).e)),
-                ("set", M, lambda: self.mk_trans(M.e)),
-                ("plus", M, lambda: self.mk_trans(M.e)),
-                ("set", self.p_mrange(M, 0, 3, 0, 3), lambda: self.mk_mm(self.p_mrange(M, 1, 4, 1, 4).e, self.p_mrange(M1, 0, 3, 1, 4).e)),
+                ("set", v, lambda: self.mk_mv(M().e, v().e)),
+                ("plus", v, lambda: self.mk_vm(v().e, M().e)),
+                ("set", M, lambda: self.mk_mm(M().e, M1().e)),
+                ("set", M, lambda: self.mk_mm(M1().e, self.mk_trans(M().e))),
+                ("minus", M, lambda: self.mk_mm(O().e, M().e)),
+                ("set", lambda: self.p_row(M(), 1), lambda: self.mk_mv(M().e, self.p_col(M(), 2).e)),
+                ("set", lambda: self.p_col(M(), 0), lambda: self.mk_vm(self.p_row(M(), 3).e, M().e)),
+                ("plus", lambda: self.p_diag(M()), lambda: self.mk_fold("max", False, M().e)),
+                ("set", lambda: self.p_row(M(), 0), lambda: self.mk_fold("min", True, M().e)),
+                ("set", M, lambda: self.mk_outer(self.p_col(M(), 1).e, self.p_row(M(), 2).e)),
+                ("set", M, lambda: self.mk_trans(M().e)),
+                ("plus", M, lambda: self.mk_trans(M().e)),
+                ("set", lambda: self.p_mrange(M(), 0, 3, 0, 3),
+                 lambda: self.mk_mm(self.p_mrange(M(), 1, 4, 1, 4).e, self.p_mrange(M1(), 0, 3, 1, 4).e)),
             ]
+            lay()
+            init, stmts = self.init_ops({"*": "mixed"}), []
             for form, T, mk in todo:
                 try:
-                    self.emit(stmts, form, T, mk(), "alias-blockwise")
+                    self.emit(stmts, form, T(), mk(), "alias-blockwise")
                 except Unsupported as u:
                     self.skip(u)
-            cases.append((init, stmts))
+                if len(stmts) >= 3:
+                    cases.append((init, stmts))
+                    lay()
+                    init, stmts = self.init_ops({"*": "mixed"}), []
+            if stmts:
+                cases.append((init, stmts))
         return cases
 
     def family_alias(self, quick):
@@ -674,6 +688,258 @@ class Dir(Gen):
             cases.append((init, [(k, op, src, info) for (k, op, src, info, _, _) in sel]))
         return cases
 
+    # ------------------------------------------------------------------ family R: one witness per rewrite rule
+    # variables of the rule layout (all operand shapes distinct: 3, 4, 5; `p2` = non-zero powers of two, used as divisors)
+    #   v0(3) v1(5) v2(4) v3(5)p2 v4(3) v5(4)p2 v6(5) v7(12: vector target)
+    #   A0(3x5) A1(3x5)p2 A2(3x4) A3(4x5) A4(4x4) A5(4x4)p2 A6(5x3) A7(10x10: row-major target)
+    #   B0(3x5) B1(4x5) B2(4x4) B3(10x10: column-major target)
+    RULE_FORMS = ["set", "plus", "na_set", "minus", "na_plus", "na_minus"]
+
+    def layout_rules(self):
+        self.setup([3, 5, 4, 5, 3, 4, 5, 12],
+                   [(3, 5), (3, 5), (3, 4), (4, 5), (4, 4), (4, 4), (5, 3), (10, 10)],
+                   [(3, 5), (4, 5), (4, 4), (10, 10)])
+        return self.init_ops({"*": "wide", "v3": "pow2", "v5": "pow2", "A1": "pow2", "A5": "pow2"})
+
+    def rule_builders(self, rw=(1, 3), cw=(2, 5), vr=(1, 4), ri=2, dw=(1, 4)):
+        """[(rule name, builder)]: for every rule of the table at least one expression whose construction through the
+        public functions makes exactly this specialisation fire, with NON-symmetric arguments: non-square operands,
+        row window != column window, start offsets > 0 and pairwise different, scalar factors != 1, non-commutative
+        functors (division), distinct operands on the two sides of every binary node"""
+        X = lambda kind, k: self.V(kind, k).expr()
+        v = lambda k: X("v", k)
+        A = lambda k: X("A", k)
+        B = lambda k: X("B", k)
+        sm, un, bn = self.mk_smul, self.un, self.bin
+        # matrix operands of shape 3 x 5, by expression class
+        m35 = {
+            "matrix_scalar_multiply": lambda: sm(2, A(0)),
+            "matrix_addition": lambda: self.mk_add(A(0), B(0)),
+            "scalar_matrix": lambda: self.mk_cmat(3, 5, 3),
+            "vector_repeater_row_major": lambda: self.mk_repeat(v(1), 3),
+            "vector_repeater_column_major": lambda: self.mk_trans(self.mk_repeat(v(0), 5)),
+            "matrix_unary": lambda: un("M", "abs", A(0)),
+            "matrix_binary": lambda: bn("M", "div", A(0), A(1)),
+            "outer_product": lambda: self.mk_outer(v(0), v(1)),
+            "matrix_matrix_prod": lambda: sm(-2, self.mk_mm(A(2), B(1))),
+            "diagonal_matrix": lambda: self.mk_diagm(v(1)),                       # 5 x 5
+        }
+        m35["vector_repeater"] = m35["vector_repeater_row_major"]
+        mcat = {"matrix_concat": lambda: self.mk_concatr(A(0), B(0)), "matrix_concat#b": lambda: self.mk_concatb(B(0), A(0))}
+        # square operands (4 x 4) for diag()
+        m44 = {
+            "matrix_scalar_multiply": lambda: sm(3, A(4)),
+            "matrix_addition": lambda: self.mk_add(A(4), B(2)),
+            "vector_repeater": lambda: self.mk_repeat(v(2), 4),
+            "vector_repeater#c": lambda: self.mk_trans(self.mk_repeat(v(2), 4)),
+            "matrix_unary": lambda: un("M", "abs", B(2)),
+            "matrix_binary": lambda: bn("M", "div", B(2), A(5)),
+            "outer_product": lambda: self.mk_outer(v(2), v(5)),
+            "diagonal_matrix": lambda: self.mk_diagm(v(2)),
+        }
+        # vector operands of size 5
+        v5 = {
+            "matrix_vector_prod": lambda: sm(-3, self.mk_mv(A(6), v(0))),
+            "vector_scalar_multiply": lambda: sm(2, v(1)),
+            "scalar_vector": lambda: self.mk_cvec(5, 3),
+            "unit_vector": lambda: self.mk_unit(5, 2, -3),
+            "vector_unary": lambda: un("V", "abs", v(1)),
+            "vector_addition": lambda: self.mk_add(v(1), v(6)),
+            "vector_binary": lambda: bn("V", "div", v(1), v(3)),
+            "vector_concat": lambda: self.mk_concat(v(0), self.mk_range(v(2), 1, 3)),
+        }
+        out = []
+
+        def add(rule, mk):
+            out.append((rule, mk))
+
+        def pat(r):
+            """key of the operand dictionaries for the pattern of rule r"""
+            p = r["pattern"]
+            head = p.split("<")[0]
+            if head == "vector_repeater":
+                if "row_major" in p:
+                    return "vector_repeater_row_major"
+                if "column_major" in p:
+                    return "vector_repeater_column_major"
+            return head
+
+        for r in self.api.c.rules_in_order():
+            if r["status"] != "translated":
+                continue
+            name, opt, key = r["name"], r["opt"], pat(r)
+            if opt == "vector_range_optimizer" and key in v5:
+                add(name, lambda key=key: self.mk_range(v5[key](), *vr))
+            elif opt == "matrix_transpose_optimizer" and (key in m35 or key in mcat):
+                if key in mcat:
+                    add(name, lambda: self.mk_trans(mcat["matrix_concat"]()))
+                    add(name, lambda: self.mk_trans(mcat["matrix_concat#b"]()))
+                else:
+                    add(name, lambda key=key: self.mk_trans(m35[key]()))
+            elif opt == "matrix_row_optimizer" and key in m35:
+                add(name, lambda key=key: self.mk_row(m35[key](), ri))
+            elif opt == "matrix_diagonal_optimizer" and key in m44:
+                add(name, lambda key=key: self.mk_diag(m44[key]()))
+                if key + "#c" in m44:
+                    add(name, lambda key=key: self.mk_diag(m44[key + "#c"]()))
+            elif opt == "matrix_range_optimizer" and key in m35:
+                # rows [1,3) and columns [2,5): different starts, different extents
+                # the rule for the diagonal matrix has the precondition start1 == start2, end1 == end2
+                # (REMORA_RANGE_CHECK: "unimplemented: non-diagonal subranges of diagonal matrix"; hypotheses hc1, hc2
+                # of its lemma), so its window is a diagonal block with a start offset
+                w = (rw + cw) if key != "diagonal_matrix" else (dw + dw)
+                add(name, lambda key=key, w=w: self.mk_mrange(m35[key](), *w))
+                if key == "vector_repeater":
+                    add(name, lambda: self.mk_mrange(m35["vector_repeater_column_major"](), *(rw + cw)))
+                if key != "diagonal_matrix":
+                    # same extents, different starts: a mixed-up window changes the values, not the shape
+                    w2 = (rw[0], rw[1], cw[0], cw[0] + rw[1] - rw[0]) if cw[0] + rw[1] - rw[0] <= 5 and cw[0] != rw[0] else \
+                        (rw[0], rw[1], rw[0] + 1, rw[1] + 1)
+                    add(name, lambda key=key, w2=w2: self.mk_mrange(m35[key](), *w2))
+            elif opt == "matrix_rows_optimizer" and key in m35:
+                add(name, lambda key=key: self.mk_rows(m35[key](), *rw))
+                add(None, lambda key=key: self.mk_cols(m35[key](), *cw))     # = trans(rows(trans(.)))
+            elif opt == "vector_scalar_multiply_optimizer":
+                if key == "default":
+                    add(name, lambda: sm(-2, v(1)))
+                elif key in v5:
+                    add(name, lambda key=key: sm((-3, 2), v5[key](), key != "vector_addition"))     # t*v and v*t
+            elif opt == "matrix_scalar_multiply_optimizer":
+                if key == "default":
+                    add(name, lambda: sm(-2, B(0)))
+                elif key in mcat:
+                    add(name, lambda: sm(-2, mcat["matrix_concat"]()))
+                    add(name, lambda: sm(3, mcat["matrix_concat#b"]()))
+                elif key in m35:
+                    add(name, lambda key=key: sm((-3, 2), m35[key](), key != "matrix_addition"))    # t*A and A*t
+            elif opt == "matrix_vector_prod_optimizer":
+                pp = r["pattern"]
+                if key == "default":
+                    add(name, lambda: self.mk_mv(A(0), v(1)))
+                    add(name, lambda: self.mk_vm(v(0), B(0)))
+                elif pp.startswith("matrix_scalar_multiply<M>, vector_scalar_multiply"):
+                    add(name, lambda: self.mk_mv(sm(2, A(0)), sm(-3, v(1))))
+                elif pp.startswith("matrix_scalar_multiply"):
+                    add(name, lambda: self.mk_mv(sm(2, B(0)), v(1)))
+                elif pp.startswith("M,"):
+                    add(name, lambda: self.mk_mv(A(0), sm(-3, v(1))))
+                elif key == "matrix_matrix_prod":
+                    add(name, lambda: self.mk_mv(sm(2, self.mk_mm(A(2), B(1))), v(1)))
+                elif key == "matrix_addition":
+                    add(name, lambda: self.mk_mv(self.mk_add(A(0), sm(2, B(0))), v(1)))
+                elif key == "outer_product":
+                    add(name, lambda: self.mk_mv(self.mk_outer(v(0), v(1)), v(6)))
+                elif key == "vector_repeater_row_major":
+                    add(name, lambda: self.mk_mv(self.mk_repeat(v(1), 3), v(6)))
+                elif key == "diagonal_matrix":
+                    add(name, lambda: self.mk_mv(self.mk_diagm(v(1)), v(6)))
+                    # the same operand classes on the left: prod(v, M) = prod(trans(M), v)
+                    add(None, lambda: self.mk_vm(v(0), sm(2, B(0))))
+                    add(None, lambda: self.mk_vm(sm(-3, v(0)), sm(2, A(0))))
+                    add(None, lambda: self.mk_vm(v(0), self.mk_add(A(0), sm(2, B(0)))))
+                    add(None, lambda: self.mk_vm(v(0), sm(2, self.mk_mm(A(2), B(1)))))
+                    add(None, lambda: self.mk_vm(v(4), self.mk_outer(v(0), v(1))))
+                    add(None, lambda: self.mk_vm(v(6), self.mk_diagm(v(1))))
+            elif opt == "matrix_matrix_prod_optimizer" and key == "default":
+                add(name, lambda: self.mk_mm(A(2), B(1)))
+                add(name, lambda: self.mk_mm(self.mk_trans(A(6)), self.mk_trans(A(3))))
+            elif opt == "matrix_unary_optimizer":
+                if key == "default":
+                    add(name, lambda: un("M", "abs", B(0)))
+                elif key == "matrix_unary":
+                    # f2(f1(x)): dropping either functor changes the value (1/x^2 on powers of two), and the ORDER
+                    # of the composition is visible when f1 carries a folded negative factor: (-2|x|)^2 != -2|x^2|
+                    add(name, lambda: un("M", "inv", un("M", "sqr", A(1))))
+                    add(name, lambda: un("M", "sqr", sm(-2, un("M", "abs", A(0)))))
+                elif key == "matrix_binary":
+                    add(name, lambda: un("M", "abs", bn("M", "div", A(0), A(1))))
+            elif opt == "vector_unary_optimizer":
+                if key == "default":
+                    add(name, lambda: un("V", "abs", v(1)))
+                elif key == "vector_unary":
+                    add(name, lambda: un("V", "inv", un("V", "sqr", v(3))))
+                    add(name, lambda: un("V", "sqr", sm(-2, un("V", "abs", v(1)))))
+                elif key == "vector_binary":
+                    add(name, lambda: un("V", "abs", bn("V", "div", v(1), v(3))))
+                elif key == "matrix_row_transform":
+                    # g2(fold(A, f, g)): the outer functor applies to the folded value, not to the elements
+                    add(name, lambda: un("V", "abs", self.mk_fold("min", True, A(0))))
+                    add(name, lambda: un("V", "sqr", self.mk_fold("sum", False, B(0))))
+            elif opt == "fold_vector_set_optimizer":
+                rows = "row_major" in r["pattern"]
+                add(name, lambda rows=rows: self.mk_fold("sum", rows, A(0)))
+                add(name, lambda rows=rows: self.mk_fold("max", rows, B(0)))
+                add(name, lambda rows=rows: self.mk_fold("norm_1", rows, A(0)))
+        return out
+
+    def family_rules(self, quick, per_case=10):
+        """family R: for every translated rule of the table statements that make it fire (decided by the class-level
+        interpreter: the rule is in the set of specialisations selected while the expression is built)"""
+        calc = self.api.c if self.api is not None else None
+        self.rule_witness = {}
+        if calc is None:
+            return []
+        cases, stmts = [], []
+        init = self.layout_rules()
+        builders = self.rule_builders()
+        if not quick:
+            # thorough tier: a second set of witnesses with windows / indices from the seed
+            dr = self.dr
+            def win(n, other=None):
+                for _ in range(50):
+                    a = dr.range(0, n - 1); b = dr.range(a + 1, n)
+                    if (a, b) != other:
+                        return (a, b)
+                return (0, n)
+            rw = win(3); cw = win(5, rw)
+            builders += self.rule_builders(rw, cw, win(5), dr.below(3), win(5))
+        n = 0
+        for rule, mk in builders:
+            before = dict(calc.fired)
+            try:
+                e = mk()
+            except Unsupported as u:
+                self.skip(f"{rule}: {u}")
+                continue
+            delta = sorted(k for k, c in calc.fired.items() if c != before.get(k, 0))
+            if rule is not None and rule not in delta:
+                self.skip(f"{rule}: builder does not fire it")
+                continue
+            n += 1
+            fname = self.RULE_FORMS[n % len(self.RULE_FORMS)]
+            if e.kind == "V":
+                L = e.shape
+                s0 = (3 * n) % (12 - L + 1)
+                T = self.p_range(self.p_var(self.V("v", 7)), s0, s0 + L)
+            else:
+                n1, n2 = e.shape
+                base = self.p_var(self.V("A", 7) if n % 2 else self.V("B", 3))
+                s1, s2 = (3 * n) % (10 - n1 + 1), (5 * n + 1) % (10 - n2 + 1)
+                T = self.p_mrange(base, s1, s1 + n1, s2, s2 + n2)
+            k0 = len(stmts)
+            if not self.emit(stmts, fname, T, e, "rule"):
+                continue
+            stmts[k0][3]["witness"] = rule
+            stmts[k0][3]["rules"] = delta
+            for fr in ([rule] if rule is not None else delta):
+                self.rule_witness[fr] = self.rule_witness.get(fr, 0) + 1
+            if n % 3 == 0:
+                # the same right-hand side through the reduction entry points (no target: sum / sum of all elements)
+                try:
+                    rr = self.render_reduction(self.k, "sum" if e.kind == "V" else "msum", [mk()])
+                except Unsupported:
+                    rr = None
+                if rr is not None:
+                    rr[2].update(family="rule", witness=None, rules=delta)
+                    stmts.append((self.k,) + rr)
+                    self.k += 1
+            if len(stmts) >= per_case:
+                cases.append((init, stmts))
+                stmts, init = [], self.layout_rules()
+        if stmts:
+            cases.append((init, stmts))
+        return cases
+
     # ------------------------------------------------------------------ family D: triangular products
     def pool_tri(self):
         #   v0(T) v1(T)   A0(TxT) A1(TxN) A2(TxN)   B0(TxT) B1(TxN) B2(TxN)
@@ -732,6 +998,7 @@ def directed_program(ctx, calc, quick, with_tri=True):
     cases += d.family_bc(quick)
     if with_tri:
         cases += d.family_tri(quick)
+    cases += d.family_rules(quick)      # last: its statement numbers do not shift those of the other families
     if not quick:
         d2 = Dir(ctx, calc, ctx.rng.fork("c01-directed-structure"), dr)
         d2.k = d.k + 100000
